@@ -161,7 +161,11 @@ func NewWorld(t fataler, sources []*SourceCfg, decls []*refmodel.Decl, opts ...W
 	}
 	w.igs = w.conf.Integrations
 	if w.storeIgs {
-		for _, ig := range w.igs {
+		for i, ig := range w.igs {
+			if i < len(w.decls) && w.decls[i].FilterAgg == "" {
+				// nothing fills in a default for a stored integration: what the declaration omits stays omitted
+				ig.FilterAGG = ""
+			}
 			cj, err := json.Marshal(ig)
 			if err != nil {
 				return w, err
